@@ -140,25 +140,27 @@ def pointToParameter (gen point : GRow) : GRow :=
   let e2 := e1.set 0 (gDiv * pDiv)
   (({ gen with e := e2 } : GRow).strongNormalize).setIsParameter
 
-/-- the loop over `gen_sys`; the rows visited so far (possibly rewritten) are accumulated in `done` -/
-def relConLoop (c : Con) : RelConSt → List GRow → List GRow → (RelConSt × List GRow) ⊕ List GRow
+/-- the loop over `gen_sys`; the rows visited so far (possibly rewritten) are accumulated in `done`.
+    `fx = true`: the repaired code (1e4d543: the sign of the first point of a strict inequality is the reduced one, the
+    ε-coefficient does not meet a coordinate); `fx = false`: the code before the repair (KF-C05-25) -/
+def relConLoop (fx : Bool) (c : Con) : RelConSt → List GRow → List GRow → (RelConSt × List GRow) ⊕ List GRow
   | st, done, [] => .inl (st, done)
   | st, done, g :: gs =>
     if g.isPoint ∧ st.firstPoint.isNone then
-      let sign := sgnI (sp c.raw g.e)
+      let sign := sgnI (sp (if fx then c.e else c.raw) g.e)
       let st1 : RelConSt :=
         if sign = 0 then { st with pointSaturates := !c.isStrict, firstPoint := some g }
         else if sign > 0 then { st with pointIsIncluded := !c.isEquality, firstPoint := some g }
         else { st with firstPoint := some g }
-      relConLoop c st1 (done ++ [g]) gs
+      relConLoop fx c st1 (done ++ [g]) gs
     else
       let g1 := if g.isPoint then pointToParameter g (st.firstPoint.getD default) else g
       let sign := sgnI (sp c.e g1.e)      -- `reduced_sign` (strict) and `sign` (non-strict) both stop before ε
       if sign ≠ 0 then .inr (done ++ g1 :: gs)
-      else relConLoop c st (done ++ [g1]) gs
+      else relConLoop fx c st (done ++ [g1]) gs
 
-/-- Grid_public.cc:654 -/
-def relationWithCon (g : Grid) (c : Con) : Grid × Option Rel :=
+/-- Grid_public.cc:654; `fx` as in `relConLoop` -/
+def relationWithConV (fx : Bool) (g : Grid) (c : Con) : Grid × Option Rel :=
   if g.spaceDim < c.spaceDim then (g, none)
   else if c.isEquality then relationWithCg g c.toCg
   else if g.markedEmpty then (g, some Rel.all3)
@@ -173,13 +175,18 @@ def relationWithCon (g : Grid) (c : Con) : Grid × Option Rel :=
     if !r.2 then (r.1, some Rel.all3)
     else
       let g1 := r.1
-      match relConLoop c {} [] g1.gen with
+      match relConLoop fx c {} [] g1.gen with
       | .inr rows => ({ g1 with gen := rows }, some Rel.si)
       | .inl (st, rows) =>
         let g2 := { g1 with gen := rows }
         if st.pointSaturates then (g2, some { included := true, saturates := true })
         else if st.pointIsIncluded then (g2, some { included := true })
         else (g2, some { disjoint := true })
+
+/-- `relation_with(const Constraint&)` as the repaired library does it -/
+def relationWithCon (g : Grid) (c : Con) : Grid × Option Rel := relationWithConV true g c
+/-- … and before the repair of KF-C05-25 (kept as the witness of the historical defect) -/
+def relationWithConBeforeFix (g : Grid) (c : Con) : Grid × Option Rel := relationWithConV false g c
 
 /-! ### `is_universe`, `is_bounded`, `is_discrete`, `constrains` (Grid_public.cc:802-1002) -/
 
